@@ -20,7 +20,7 @@ from ..gen import rtl as G
 
 PID = "C02"
 
-_MANIFEST_NOT_READY = MANIFEST_ = {
+MANIFEST = MANIFEST_ = {
     "category": "other",
     "technique": "Coq reference semantics of a Veryl core (µRTL) with order-independence proofs + differential "
                  "correspondence of every simulator engine against the extracted reference",
@@ -47,7 +47,7 @@ def corpus_cases():
     out = []
     if os.path.isdir(d):
         for f in sorted(os.listdir(d)):
-            if f.endswith(".json") and f != "pool.json":
+            if f.endswith(".json") and f.startswith("known_"):
                 j = json.load(open(os.path.join(d, f)))
                 out.append((G.module_from_json(j["module"]), G.stim_from_json(j["stim"]), "corpus:" + f, j.get("known_key")))
     return out
@@ -86,6 +86,88 @@ def pool_cases():
     return out
 
 
+DIRECTED = os.path.join(C.VERIF, "corpus", "C02", "directed.json")
+
+
+def directed_modules():
+    """Directed operator-boundary designs (deterministic): for operand widths 8/16/31/32/33/63/64 and both
+    signednesses, one small module per operator group with one output per expression: shifts by w-1, w, w+1,
+    31..33, 63..65 (literal and variable amount), + - * and guarded / %, comparisons, reductions, >>> <<<,
+    concatenation / repeat, narrowing cast, ternary.  Always run completely (cheap), so a wrong boundary case
+    in one engine does not depend on the sample of pool entries."""
+    V = lambda x: ("var", x)
+    L = lambda w, p, s=False: ("lit", w, s, p & ((1 << w) - 1), 0)
+    B = lambda o, a, b: ("bin", o, a, b)
+    U = lambda o, a: ("un", o, a)
+    out = []
+    for w in (8, 16, 31, 32, 33, 63, 64):
+        for sg in (False, True):
+            decls = [("a", w, sg, False, "in"), ("b", w, sg, False, "in"), ("n", 7, False, False, "in"), ("c", 1, False, False, "in")]
+            groups = {}
+            amts = sorted(set(x for x in (0, 1, w - 1, w, w + 1, 31, 32, 33, 63, 64, 65) if 0 <= x < 128))
+            groups["shift"] = [B(o, V(0), L(7, k)) for o in ("shl", "shr") for k in amts] + \
+                              [B(o, V(0), V(2)) for o in ("shl", "shr")] + \
+                              ([B(o, V(0), L(7, k)) for o in ("ashr", "ashl") for k in amts] + [B("ashr", V(0), V(2))] if sg else [])
+            groups["arith"] = [B(o, V(0), V(1)) for o in ("add", "sub", "mul", "and", "or", "xor")] + \
+                              [B("div", V(0), B("or", V(1), L(2 if sg else 1, 1, sg))), B("rem", V(0), B("or", V(1), L(2 if sg else 1, 1, sg))),
+                               U("minus", V(0)), U("bitnot", V(0)), B("sub", L(w, 0, sg), V(0))]
+            groups["compare"] = [B(o, V(0), V(1)) for o in ("lt", "le", "gt", "ge", "eq", "ne", "weq", "wne")] + \
+                                [U(o, V(0)) for o in ("rand", "rnand", "ror", "rnor", "rxor", "rxnor")] + \
+                                [B("land", U("ror", V(0)), V(3)), B("lor", U("ror", V(1)), V(3)), U("lognot", V(3))]
+            groups["misc"] = [("tern", V(3), V(0), V(1)), ("cat", [(V(3), 1), (V(2), 1)]), ("cat", [(V(2), 3)]),
+                              ("tern", B("lt", V(0), V(1)), B("add", V(0), L(w, 1, sg)), B("sub", V(1), L(w, 1, sg)))] + \
+                             ([("cast", max(1, w // 2), B("add", V(0), V(1))), ("sel", 0, w - 1, w // 2), ("sel", 0, w // 2, 0)] if not sg else [])
+            for gname, exprs in groups.items():
+                D = list(decls)
+                items = []
+                for i, e in enumerate(exprs):
+                    # outputs at the operand width and at a wider width (extension)
+                    for ow in sorted(set((w, min(64, w + 9)))):
+                        D.append(("y%d_%d" % (i, ow), ow, False, False, "out"))
+                        items.append(("assign", len(D) - 1, e))
+                m = G.fix_module({"decls": D, "items": items, "order": list(range(len(items)))})
+                full = (1 << w) - 1
+                vals = [(0, 0), (1, full), (full, 1), (1 << (w - 1), full), ((1 << (w - 1)) - 1, 1 << (w - 1)), (0x5a5a5a5a5a5a5a5a & full, 3), (full, full), (2, full - 1)]
+                stim = []
+                for j, (a, b) in enumerate(vals):
+                    n = [0, 1, w - 1, w, w + 1, 63, 64, 65][j % 8] & 127
+                    stim.append((False, [(a, 0), (b, 0), (n, 0), (j & 1, 0)]))
+                out.append((m, stim, "directed:w%d%s:%s" % (w, "s" if sg else "u", gname)))
+    return out
+
+
+def directed_cases():
+    if not os.path.exists(DIRECTED):
+        return []
+    exp = json.load(open(DIRECTED))
+    return [(m, st, tag, None, exp.get(tag, "ok")) for (m, st, tag) in directed_modules()]
+
+
+def make_directed(binary, refbin):
+    """record the status of the directed designs on the CURRENT tree; returns KNOWN_FINDINGS lines"""
+    cases = [(m, st, tag, None) for (m, st, tag) in directed_modules()]
+    r, ref2, ref4 = run_all(binary, refbin, cases, ENGINES_2, ENGINES_4 + ENGINES_4_MORE, strict=True)
+    exp, lines = {}, []
+    for i, (m, stim, tag, _) in enumerate(cases):
+        one = {e: r[e][i] for e in r}
+        bad = [b for b in judge(m, stim, ref2[i], ref4[i], one, ENGINES_2, ENGINES_4 + ENGINES_4_MORE) if b[0] != "absorbed-x"]
+        if ref2[i][0] != "OK":
+            exp[tag] = "skip"
+            lines.append("# directed %s outside the reference: %s" % (tag, ref2[i][1][:100]))
+        elif bad:
+            orac = [b for b in bad if not b[0].startswith("ref")]
+            if orac:
+                exp[tag] = "%s:%s" % (orac[0][0].split(":")[0], tag.replace(":", "-"))
+                lines.append("finding: property=C02 key=%s directed design %s (c02.directed_modules): %s" % (exp[tag], tag, orac[0][1][:200]))
+            else:
+                exp[tag] = "skip"
+                lines.append("# directed %s: reference differs from agreeing engines: %s" % (tag, bad[0][1][:160]))
+        else:
+            exp[tag] = "ok"
+    json.dump(exp, open(DIRECTED, "w"), indent=0)
+    return lines
+
+
 def make_pool(binary, refbin, n_narrow=160, n_wide=60, cycles=16, seed=20260922):
     """(re)create the pool from the CURRENT tree; returns the KNOWN_FINDINGS lines for its failing entries"""
     import hashlib
@@ -107,7 +189,7 @@ def make_pool(binary, refbin, n_narrow=160, n_wide=60, cycles=16, seed=20260922)
             m = G.gen_program(rng, **prof)
             kind = "wide" if wide else "narrow"
         cases.append((m, G.gen_stimulus(rng, m, cycles), kind, None))
-    r, ref2, ref4 = run_all(binary, refbin, cases, ENGINES_2, ENGINES_4 + ENGINES_4_MORE)
+    r, ref2, ref4 = run_all(binary, refbin, cases, ENGINES_2, ENGINES_4 + ENGINES_4_MORE, strict=True)
     out, lines, dropped = [], [], 0
     for i, (m, stim, kind, _) in enumerate(cases):
         one = {e: r[e][i] for e in r}
@@ -224,13 +306,16 @@ def judge(m, stim, ref2, ref4, results, engines2, engines4):
     return bad
 
 
-def run_all(binary, refbin, cases, engines2, engines4):
+def run_all(binary, refbin, cases, engines2, engines4, strict=False):
+    """strict: the reference driver also checks Eval.supported (used when the pool is created; pool entries
+    keep the status recorded then, even if the validated fragment is narrowed later)"""
     mods = [c[0] for c in cases]
     stims = [c[1] for c in cases]
     simcases = [G.sim_case(m, st) for m, st in zip(mods, stims)]
     configs = {e: (S.ENGINES[e], None) for e in engines2 + engines4}
     res = S.run_matrix(binary, simcases, configs, nshards=2)
-    ref = R.ref_eval(refbin, [(m, st, "2") for m, st in zip(mods, stims)] + [(m, st, "4") for m, st in zip(mods, stims)])
+    u = "" if strict else "u"
+    ref = R.ref_eval(refbin, [(m, st, "2" + u) for m, st in zip(mods, stims)] + [(m, st, "4" + u) for m, st in zip(mods, stims)])
     n = len(cases)
     return res, ref[:n], ref[n:]
 
@@ -277,9 +362,9 @@ def run(tier, seed, replay):
     rng = random.Random(seed * 1000003 + 2)
     pool = pool_cases()
     if tier == "quick":
-        pool = rng.sample(pool, min(len(pool), 36))
+        pool = rng.sample(pool, min(len(pool), 24))
     cycles = max([len(c[1]) for c in pool] + [1])
-    cases = [c + (None,) for c in corpus_cases()] + pool
+    cases = [c + (None,) for c in corpus_cases()] + [c for c in directed_cases() if c[4] != "skip"] + pool
     r, ref2, ref4 = run_all(binary, refbin, cases, engines2, engines4)
 
     badref = [x for x, c in zip(ref2, cases) if x[0] != "OK" and not c[3]]
@@ -325,7 +410,7 @@ def run(tier, seed, replay):
     res.coverage["distinct_nontrivial"] = len(distinct)
     res.coverage["rule"] = ("programs from the fixed pool corpus/C02/pool.json (random µRTL modules: 2-5 inputs, 1-5 comb items, 0-3 always_ff "
                             "groups, expression depth <=4, widths <= 64 incl. 31/32/33/63/64 and up to 200, signed/unsigned, logic/bit, $display in "
-                            "always_ff, pass-shaped programs; status of every entry on the unchanged tree recorded) — the seed selects the 36 entries of "
+                            "always_ff, pass-shaped programs; status of every entry on the unchanged tree recorded) — the seed selects the 24 entries of "
                             "a quick run, thorough runs all — plus the recorded findings' minimal designs; random stimulus with boundary values "
                             "and mid-run resets; distinct by serialised (program, stimulus); evaluations = programs x engines x cycles")
     res.obligation("enough generated programs are accepted by the analyzer (%d of %d)" % (accepted, len(cases)),
@@ -369,8 +454,10 @@ def run(tier, seed, replay):
             m2, st2 = m, stim
         rep = {"module": G.module_to_json(m2), "stim": G.stim_to_json(st2), "veryl": G.to_veryl(m2), "origin": tag, "detail": d}
         if k.startswith("ref"):
-            res.violation(key, w + " — the engines agree with each other on this input; the reference semantics and the "
-                          "simulator differ", dict(rep, no_longer_checks="correspondence reference = engine " + k), no_input=True)
+            agree = not any(f[0] == i for f in orac)
+            res.violation(key, w + (" — the engines agree with each other on this input; the reference semantics and the "
+                                    "simulator differ" if agree else " (the engines also differ from each other on this input)"),
+                          dict(rep, no_longer_checks="correspondence reference = engine " + k), no_input=agree)
         else:
             res.violation(key, w, rep)
     if not proved and not res.violations:
